@@ -256,6 +256,8 @@ func (e *c34Env) boundaryPayloads() []c34Payload {
 			{Src: "/a/x", Dst: "/d/l", Type: "symlink"}, c34File(j("tree/usr/x"), "/a/y/z"), {Dst: "/b/q", Type: "dir"}}},
 		{"unicode-and-spaces", []wire.Content{c34File(j("with space/file name.txt"), "/opt/ünï cödé/fïle ✓.txt"), c34File(j("bin/tool"), "/opt/sp ace/t o o l"),
 			{Dst: "/opt/日本語/", Type: "dir"}, {Src: "/opt/sp ace/t o o l", Dst: "/opt/ünï cödé/lnk →", Type: "symlink"}}},
+		{"mtree-special-characters", []wire.Content{c34File(j("bin/tool"), "/opt/sh#arp/a\"quote"), c34File(j("etc/app.conf"), "/opt/back\\slash/t\tab"),
+			{Dst: "/opt/#first/", Type: "dir"}, {Src: "../t\"a r#get\\x", Dst: "/opt/sh#arp/l\x7fnk", Type: "symlink"}}},
 		{"setuid-owner-mtime", []wire.Content{
 			{Src: j("bin/suid"), Dst: "/usr/bin/suid", Info: &wire.FileInfo{Mode: 0o4755, Owner: "root", Group: "wheel", MTime: 1500000001}},
 			{Src: j("bin/tool"), Dst: "/usr/bin/sgid", Info: &wire.FileInfo{Mode: 0o2755, Owner: "daemon", Group: "app", MTime: wire.ZeroTime}},
